@@ -292,6 +292,21 @@ fn run_board(prop: Prop, tier: Tier) -> i32 {
         fams.push(json!({"family": sf.name(), "index_space": sf.len(), "legal_members": n, "flipped_members": n2, "secs": t0.elapsed().as_secs_f64()}));
     }
 
+    // MANY (nine or ten like pieces), co-prime sub-lattices
+    if matches!(prop, Prop::C01 | Prop::C02 | Prop::C03 | Prop::C06) {
+        let t0 = Instant::now();
+        let mut n_total = 0u64;
+        for kind in [KNIGHT, BISHOP, ROOK, QUEEN] {
+            let fam = Many { kind };
+            let target: u64 = if tier == Tier::Quick { 400_000 } else { 8_000_000 };
+            let stride = (fam.len() / target).max(1) | 1;
+            let sf = Strided(&fam, stride);
+            n_total += for_family(&sf, &|p| visit(&ctx, p));
+            n_total += for_family(&Flipped(&sf), &|p| visit(&ctx, p));
+        }
+        fams.push(json!({"family": "MANY:{N,B,R,Q} sub-lattices and flips (nine or ten like pieces)", "legal_members": n_total, "secs": t0.elapsed().as_secs_f64()}));
+    }
+
     // CHK5 (pawn check + slider + defender), a co-prime sub-lattice
     if matches!(prop, Prop::C01 | Prop::C05) {
         let t0 = Instant::now();
